@@ -104,7 +104,7 @@ class SrcWorld(World):
     def peer_conf(self, st, **over):
         c = self.c
         w = max(c["idw_s"], c["idw_d"])
-        p = st.peer or {"src": [c["idv_s"], w], "dst": [c["idv_d"], w], "seq": [c["seq0"], c["seqw"]], "mode": c["mode"], "crc": c["crc_flag"]}
+        p = st.peer or {"src": [c["idv_s"], w], "dst": [c["idv_d"], w], "seq": [c["seq0"], c["seqw"]], "mode": core.eff_mode(c), "crc": c["crc_flag"]}
         kw = dict(src=tuple(p["src"]), dst=tuple(p["dst"]), seq=tuple(p["seq"]), mode=p["mode"], crc=p["crc"])
         kw.update(over)
         return pdus.conf(**kw)
